@@ -20,6 +20,9 @@ claim("C01", "ESP must-pass-through rules on the verification core, the chain ch
 claim("C02", "flag-sensitive ESP acceptance rules (comparison true-edge must be passed) on verify.SNP, the validator closure, the core, SevPolicy and TdxPolicy + literal-field forwarding slices keyed by public flag names",
       "Decides on all paths that acceptance needs the true edge of a byte comparison between the report measurement and the value endorsed for the named configuration (keyed lookup; failed presence test never accepts), that the length gate precedes verification, that an expected digest is compared, that derived policies carry the measurement / a non-empty MRTD allow-list of the named configuration, and that the named count / RAM size is forwarded from CLI flags and library options. Byte-level equality and the external policy engines are trusted.",
       "DESIGN.md §3 C02")
+claim("C09", "effect analysis with pointer provenance over the validator closures' call closure (no write to any object reachable from captured/caller options or globals) + global-store scan",
+      "Decides for every interleaving (by absence of shared writes, under the Go memory model) that validator closures and their makers write only memory allocated during the call; callers hand makers fresh options; no package-level state in the verifier packages is written after init. External libraries' internal state is trusted.",
+      "DESIGN.md §3 C09")
 PENDING = "static rules designed in DESIGN.md §3 but not implemented yet in this revision; not claimed until the rule set lands"
-for p in ["C03","C04","C05","C06","C07","C08","C09","C12","C16","C17","C18","C19","C20"]:
+for p in ["C03","C04","C05","C06","C07","C08","C12","C16","C17","C18","C19","C20"]:
     na(p, PENDING)
